@@ -305,7 +305,11 @@ def rule_fg(ck, R):
             if len(sts) != 1:
                 bad = 'sequence counter stored %d times per request (expected exactly one increment)' % len(sts)
             else:
-                d = L(strip_cast(sts[0].args[0])) - L(seq)
+                nv = strip_cast(sts[0].args[0])
+                # the field holds 16 bits: reductions modulo 2^16 of the stored value are the identity on what is kept
+                while (nv[0] == '%' and nv[2] == C(65536)) or (nv[0] == '&b' and nv[2] == C(0xffff)):
+                    nv = strip_cast(nv[1])
+                d = L(nv) - L(seq)
                 if not (d.is_const() and d.c == 1):
                     bad = 'session sequence counter changes by %s per request (expected +1)' % d
             if strip_cast(p.ret) != smc[0].result:
